@@ -92,6 +92,26 @@ def explain_reject(job, work=None):
     return "trace %s rejected at line %d of %d%s: %s" % (os.path.basename(job.trace), n, job.lines, why, (line or "")[:1500])
 
 
+# outcome classes (operation, ok, error class) every run of a property must have exercised; a run that did not
+# reach them decides nothing about the property (vacuous) and is a machinery failure, not a pass
+REQUIRED = {
+    "C01": [("Update", True, ""), ("Update", False, "lowbalance"), ("Withdraw", True, ""), ("AddNode", True, "")],
+    "C02": [("Update", True, ""), ("Connect", True, "")],
+    "C03": [("Update", False, "lowbalance"), ("Connect", False, "lowbalance"), ("Update", True, ""), ("Connect", True, "")],
+    "C04": [("Update", False, "verify:sig"), ("Connect", False, "verify:sig"), ("Peer", False, "verify:sig"), ("AddNode", False, "verify:sig"),
+            ("Withdraw", False, "verify:sig"), ("Update", True, ""), ("AddNode", True, "")],
+    "C05": [("Nonce", True, ""), ("Nonce", False, "invalid nonce"), ("Update", False, "verify:nonce"), ("Reopen", True, "")],
+    "C06": [("Update", False, "verify:sig"), ("Update", False, "verify:nonce"), ("AddNode", False, "verify:sig"), ("Withdraw", False, "verify:sig")],
+    "C07": [("Withdraw", True, ""), ("Withdraw", False, "wmin"), ("Withdraw", False, "settle")],
+    "C08": [("Peer", True, ""), ("Peer", False, "nohosts"), ("Peer", False, "hosterrors"), ("Client", True, "")],
+    "C09": [("Close", True, ""), ("Open", True, ""), ("Peer", True, ""), ("Connect", True, "")],
+    "C10": [("Burst", True, "")],
+    "C11": [("UpdateNodePeers", True, ""), ("Update", True, "")],
+    "C12": [("SetNode", False, "malformed"), ("GetNode", False, "unregistered"), ("AddAccountNode", True, ""), ("ActiveHosts", True, ""), ("Stats", True, "")],
+    "C13": [("Crash", True, ""), ("Reopen", True, ""), ("Downgrade", True, "")],
+}
+
+
 def trace_family(pid, tier, work, mc, jobs, level_note, rule, extra_cov=None, workers=8):
     """Common skeleton: model check + jobs + evidence."""
     t0 = time.time()
@@ -126,6 +146,15 @@ def trace_family(pid, tier, work, mc, jobs, level_note, rule, extra_cov=None, wo
         ntraces += summarize_trace(j.trace, classes, samples)
         nlines += j.lines
         C.log("trace %s: %d lines accepted (%s, focus=%s)" % (j.name, j.lines, j.module, j.focus))
+    missing = [r for r in REQUIRED.get(pid, []) if not any(c[0] == r[0] and c[1] == r[1] and c[2].startswith(r[2]) and (r[2] != "" or c[2] == "") for c in classes)]
+    req = REQUIRED.get(pid, [])
+    if req and len(missing) == len(req):
+        raise C.Machinery("vacuous run: the executions produced none of the outcome classes %s" % req)
+    if missing:
+        C.log("note: this run did not exercise the outcome classes %s (recorded in the evidence)" % missing)
+    extra_cov = dict(extra_cov or {})
+    extra_cov["required_outcome_classes"] = [list(r) for r in req]
+    extra_cov["required_outcome_classes_missing"] = [list(r) for r in missing]
     write(pid, tier, mcs, ntraces, nlines, classes, samples, rule, level_note, t0, extra_cov)
     return 0
 
